@@ -111,7 +111,8 @@ r`
 // HarnessC10TwoProducers: multiset of received values = multiset sent, and each
 // sender's values arrive in that sender's order.
 func HarnessC10TwoProducers() {
-	capacity := int64(verifrt.Choose(2))
+	verifrt.SchedPreemptBeforeChanOps(true)
+	capacity := int64(verifrt.Choose(3))
 	env := (&scriptEnv{}).addInt("n", capacity)
 	// senders send tagged values: 10,11 and 20,21
 	src := `ch := chan(n)
@@ -149,7 +150,7 @@ r`
 func HarnessC10ThreadsAndSpawnArguments() {
 	a, b := verifrt.Int64(), verifrt.Int64()
 	env := (&scriptEnv{}).addInt("a", a).addInt("b", b)
-	switch verifrt.Choose(8) {
+	switch verifrt.Choose(10) {
 	case 5:
 		// wait() may be called more than once and by more than one goroutine
 		run, _ := runConcurrent(`t := spawn(func(p) { return p + 1 }, a); x := t.wait(); y := t.wait(); x + y`, env)
@@ -201,6 +202,21 @@ func HarnessC10ThreadsAndSpawnArguments() {
 			_, isErr := run.result.(*object.Error)
 			s, isStr := run.result.(*object.String)
 			verifrt.Assert(isErr || (isStr && s.Value() == "caught"), "wait-surfaces-the-error")
+		}
+	case 8:
+		// a goroutine started by a goroutine outlives its starter
+		run, _ := runConcurrent(`ch := chan(0); launcher := spawn(func() { return spawn(func() { ch <- a; return 7 }) }); w := launcher.wait(); x := <-ch; w.wait() + x`, env)
+		verifrt.Assert(run.stage == "ok", "runs:"+run.stage)
+		if run.stage == "ok" {
+			iv, ok := asInt(run.result)
+			verifrt.Assert(ok && iv == a+7, "goroutine-started-by-a-goroutine-outlives-its-starter")
+		}
+	case 9:
+		run, _ := runConcurrent(`ch := chan(0); go func() { go func() { ch <- a }() }(); <-ch`, env)
+		verifrt.Assert(run.stage == "ok", "runs:"+run.stage)
+		if run.stage == "ok" {
+			iv, ok := asInt(run.result)
+			verifrt.Assert(ok && iv == a, "goroutine-started-by-a-goroutine-outlives-its-starter")
 		}
 	case 4:
 		run, _ := runConcurrent(`t1 := spawn(func(p) { return p * 2 }, a); t2 := spawn(func(p) { return p - 1 }, b); [t1.wait(), t2.wait()]`, env)
